@@ -240,8 +240,10 @@ Inductive tops_ok (M : imod) : fenv -> env -> list top -> Prop :=
              tops_ok M ((f_name f, sig_of f) :: F) (bind G (f_name f) BFun) r -> tops_ok M F G (TFun f :: r)
 | Tops_stmt : forall F G s r G1, stmt_ok M F G 0 RGlobal s G1 -> tops_ok M F G1 r -> tops_ok M F G (TStmt s :: r).
 
-Definition scope_of_decls (ds : list idecl) : scope := map (fun d => (idecl_name d, idecl_binding d)) ds.
-Definition funs_of_decls (ds : list idecl) : fenv := flat_map idecl_fun ds.
+(* the global scope and the alias table after the import (the last imported declaration first; the order is
+   irrelevant because the names are distinct) *)
+Definition scope_of_decls (ds : list idecl) : scope := rev (map (fun d => (idecl_name d, idecl_binding d)) ds).
+Definition funs_of_decls (ds : list idecl) : fenv := rev (flat_map idecl_fun ds).
 
 (* the declarations an import statement brings into the global scope *)
 Inductive import_ok (M : imod) : import -> list idecl -> Prop :=
